@@ -38,6 +38,7 @@ func ofKind(calls []chain.Call, kind string) []chain.Call {
 // ---- C04: every accepted burn message mints exactly what it says, once -----------------------------
 
 type c04 struct {
+	seen     map[string]bool // accepted (source domain, nonce) pairs
 	total    *big.Int // sum of amounts of accepted burn messages
 	accepted int
 	big      int
@@ -48,7 +49,7 @@ type c04 struct {
 	keys     []string
 }
 
-func (c *c04) Begin(w *sim.World) { c.total = new(big.Int) }
+func (c *c04) Begin(w *sim.World) { c.total = new(big.Int); c.seen = map[string]bool{} }
 
 func (c *c04) Step(w *sim.World, s *sim.Step) *Viol {
 	denom := w.Model.L.NDenom()
@@ -118,6 +119,11 @@ func (c *c04) Step(w *sim.World, s *sim.Step) *Viol {
 						fmt.Sprintf("recipient=%x amount=%s token=%s", bm.MintRecip, bm.Amount, wantDenom),
 						fmt.Sprintf("recipient=%x amount=%s token=%s", me.MintRecipient, me.Amount, me.MintToken))
 				}
+				pk := fmt.Sprintf("%d/%d", dm.Source, dm.Nonce)
+				if c.seen[pk] {
+					return viol("C04", s.Idx, fmt.Sprintf("burn message (domain %d, nonce %d) accepted and minted a second time", dm.Source, dm.Nonce), "exactly one mint per accepted burn message", "second mint")
+				}
+				c.seen[pk] = true
 				c.total.Add(c.total, bm.Amount)
 				c.accepted++
 				nt := false
@@ -180,6 +186,37 @@ func (c *c04) Summary(w *sim.World) (string, []string) {
 	return strings.Join(c.keys, "\x1f"), cls
 }
 
+// restartReplayProbe: an accepted burn message; its domain's messenger (and sometimes its token pair) is
+// removed; the chain goes through a genesis round trip; the registry entries come back; the same bytes
+// are submitted again.
+func restartReplayProbe(g *sim.G, label string) []*sim.Op {
+	var cands []*sim.Step
+	for _, s := range g.W.Steps {
+		if s.Op.Kind == "tx" && s.OK() && len(s.Msgs) == 1 && len(effective(s.Calls, "mint")) == 1 {
+			cands = append(cands, s)
+		}
+	}
+	if len(cands) == 0 {
+		return nil
+	}
+	s := sim.Pick(g, label+"/of", cands)
+	rm := s.Msgs[0].(*types.MsgReceiveMessage)
+	dm, err := refcodec.DecodeMessage(rm.Message)
+	if err != nil {
+		return nil
+	}
+	m := g.W.Model
+	addr, ok := m.Msgrs[dm.Source]
+	if !ok {
+		return nil
+	}
+	ops := []*sim.Op{sim.TxOp("admin:RemoveRemoteTokenMessenger", &types.MsgRemoveRemoteTokenMessenger{From: m.Roles[0], DomainId: dm.Source})}
+	ops = append(ops, &sim.Op{Kind: "restart", Label: "restart"})
+	ops = append(ops, sim.TxOp("admin:AddRemoteTokenMessenger", &types.MsgAddRemoteTokenMessenger{From: m.Roles[0], DomainId: dm.Source, Address: append([]byte{}, addr...)}))
+	ops = append(ops, sim.TxOp("replay", &types.MsgReceiveMessage{From: rm.From, Message: append([]byte{}, rm.Message...), Attestation: append([]byte{}, rm.Attestation...)}).WithMeta("vary", "after-restart"))
+	return ops
+}
+
 var allAdmin = sim.AdminTypes
 
 var C04 = register(&HistProp{ID: "C04",
@@ -187,6 +224,15 @@ var C04 = register(&HistProp{ID: "C04",
 		return sim.DrawGenesis(t, sim.GenOpts{UpperPairGen: true, MixedDenom: true})
 	},
 	Next: func(g *sim.G, i int) *sim.Op {
+		if op := queuedOp(g); op != nil {
+			return op
+		}
+		if g.Pct("restartreplay", 5) {
+			if ops := restartReplayProbe(g, "rr"); ops != nil {
+				queueOps(g, ops[1:]...)
+				return ops[0]
+			}
+		}
 		return Mix{Recv: 12, Replay: 2, Send: 2, Dep: 3, Replace: 1, RepDep: 1, Admin: 4, Ledger: 2, Multi: 1, Restart: 3,
 			RecvBroken: 25, DepValid: 80, ReplaceValid: 80, AdminHolder: 85, FaultPct: 4, AdminTypes: allAdmin}.next(g)
 	},
